@@ -16,6 +16,7 @@ import Driver.C09
 import Driver.C10
 import Driver.C11
 import Driver.C12
+import Driver.C18
 open Ws.Driver
 
 def dispatch (op : String) (args : List String) (obs : String) : String × String :=
@@ -52,6 +53,7 @@ def dispatch (op : String) (args : List String) (obs : String) : String × Strin
   | "ind" => c12ind args obs
   | "cf" => c12cf args obs
   | "badc" => c12badc args obs
+  | "rst" => c18rst args obs
   | "neg" => c14neg args obs
   | "popt" => c14popt args obs
   | "msb" => c13msb args obs
